@@ -1,4 +1,16 @@
-"""Which functions are extracted (RECIPES) and which verification jobs exist (JOBS)."""
+"""Which functions are extracted (RECIPES / FRAGMENTS) and which verification jobs exist."""
+
+PROPS = ['C%02d' % i for i in range(1, 21)]
+
+
+# ---- handlers for collaborator idioms (G14) ---------------------------------------------
+def _h_integrand_call(em, n, args, dst):
+    # integrand.function()(point[, projector])  ->  vp_integrand_call(&point[, &projector])
+    al = [em.arg(a, None) for a in args[1:]]
+    return 'vp_integrand_call%s(%s)' % ('_proj' if len(al) == 2 else '', ', '.join(al))
+
+
+_ACC_OPTS = dict(operator_calls={('vpinst_Fn', 'operator()'): _h_integrand_call})
 
 RECIPES = {
     'accumulate': dict(name='accumulate'),
@@ -10,19 +22,26 @@ RECIPES = {
     'vegas_pdf_set_bin_left': dict(name='set_bin_left', cls='vegas_pdf', self='vegas_pdf'),
     'vegas_pdf_bins': dict(name='bins', cls='vegas_pdf', self='vegas_pdf'),
     'vegas_pdf_dimensions': dict(name='dimensions', cls='vegas_pdf', self='vegas_pdf'),
-}
-
-JOBS = [
-    dict(name='refine_weights', functions=['multi_channel_refine_weights'], entry='h_multi_channel_refine_weights',
-         enforce='multi_channel_refine_weights', replace=['vp_pow'], real='double', defines=['VP_NMAX=4096'],
-         props=['C08']),
-]
-
-RECIPES.update({
     'discard_before': dict(name='discard_before'),
     'discard_after': dict(name='discard_after'),
-})
+    'accumulator_nodist_invoke': dict(name='invoke', cls='accumulator', cls_targs=['double', '0'], self='accumulator_nodist', opts=_ACC_OPTS),
+    'accumulator_nodist_result': dict(name='result', cls='accumulator', cls_targs=['double', '0'], self='accumulator_nodist'),
+    'accumulator_dist_invoke': dict(name='invoke', cls='accumulator', cls_targs=['double', '1'], self='accumulator_dist', opts=_ACC_OPTS),
+    'accumulator_dist_result': dict(name='result', cls='accumulator', cls_targs=['double', '1'], self='accumulator_dist'),
+    'accumulator_dist_ctor1': dict(name='accumulator', cls='accumulator', cls_targs=['double', '1'], self='accumulator_dist', ctor=True),
+    'accumulator_dist_add_to_1d_distribution': dict(name='add_to_1d_distribution', cls='accumulator', self='accumulator_dist'),
+    'accumulator_dist_add_to_2d_distribution': dict(name='add_to_2d_distribution', cls='accumulator', self='accumulator_dist'),
+    'projector_ctor2': dict(name='projector', cls='projector', self='projector', ctor=True, sel='accumulator'),
+    'projector_add3': dict(name='add', cls='projector', self='projector', sel='(std::size_t, double, double)'),
+    'projector_add4': dict(name='add', cls='projector', self='projector', sel='(std::size_t, double, double, double)'),
+    'mc_result_value': dict(name='value', cls='mc_result', self='mc_result'),
+    'mc_result_variance': dict(name='variance', cls='mc_result', self='mc_result'),
+    'mc_result_error': dict(name='error', cls='mc_result', self='mc_result'),
+    'mc_result_ctor5': dict(name='mc_result', cls='mc_result', self='mc_result', ctor=True, sel='(std::size_t, std::size_t, std::size_t, double, double)'),
+    'create_result': dict(name='create_result'),
+}
 
+# ---- fragments: single expressions inside the MPI drivers -----------------------------------
 _SUBP = [('size_t', 'calls'), ('int', 'rank'), ('int', 'world')]
 _DISP = [('size_t', 'calls'), ('int', 'rank'), ('int', 'world'), ('size_t', 'usage')]
 _DIS2 = [('size_t', 'calls'), ('int', 'rank'), ('int', 'world'), ('size_t', 'usage'), ('size_t', 'sub_calls')]
@@ -32,11 +51,40 @@ for _d in ('mpi_plain', 'mpi_vegas', 'mpi_multi_channel'):
     FRAGMENTS[_d + '_discard1'] = dict(unit='mpi', fn=_d, call=('discard', 0, 0), count=2, params=_DISP, ret='size_t')
     FRAGMENTS[_d + '_discard2'] = dict(unit='mpi', fn=_d, call=('discard', 1, 0), count=2, params=_DIS2, ret='size_t')
 
+# ---- B1 jobs ------------------------------------------------------------------------------------
+_GHOSTS = ('size_t vp_invocations, vp_weight_calls, vp_acc_calls; T vp_last_f, vp_last_w, vp_last_acc; '
+           'T vp_w_s0, vp_w_s1, vp_w_s2; size_t vp_w_nz, vp_w_fc;')
+_ST_ACC = [dict(cls='mc_point'), dict(cls='accumulator', cls_targs=['double', '0'], cname='accumulator_nodist')]
+_ST_DIST = [dict(cls='mc_point'), dict(cls='distribution_parameters', vec=True),
+            dict(cls='accumulator', cls_targs=['double', '1'], cname='accumulator_dist'), dict(cls='projector'),
+            dict(cls='integrand', cname='integrand', opaque=True)]
+_T_USER = 'user integrand and virtual point.weight() are contract stubs returning any value of T (NaN, +-inf, +-0 included)'
+
+JOBS = [
+    dict(name='accumulate', functions=['accumulate'], entry='h_accumulate', enforce='accumulate', solvers=['cvc5', 'cadical'],
+         structs=_ST_ACC, late_preludes=['stubs.h'], globals=_GHOSTS, props=['C14', 'C02'], thorough_reals=['float']),
+    dict(name='invoke_nodist', functions=['accumulator_nodist_invoke', 'accumulate'], entry='h_accumulator_nodist_invoke', af=['accumulator_nodist_invoke'],
+         enforce='accumulator_nodist_invoke', replace=['accumulate'],
+         structs=_ST_ACC + [dict(cls='integrand', cname='integrand', opaque=True)], late_preludes=['stubs.h'], globals=_GHOSTS,
+         props=['C02', 'C06', 'C17', 'C01'], thorough_reals=['float'], trusted=[_T_USER]),
+    dict(name='invoke_dist', functions=['accumulator_dist_invoke', 'accumulate', 'projector_ctor2'], entry='h_accumulator_dist_invoke', af=['accumulator_dist_invoke'],
+         enforce='accumulator_dist_invoke', replace=['accumulate'],
+         structs=_ST_DIST, preludes=['opaque.h'], late_preludes=['stubs.h'], globals=_GHOSTS,
+         defines=['VP_WITH_PROJECTOR', 'VP_NMAX=65536'], props=['C02', 'C06', 'C17', 'C01'], thorough_reals=['float'],
+         trusted=[_T_USER, 'the integrand may change only bin slots through the projector (proved for add_to_1d/2d_distribution in jobs dist1d/dist2d)']),
+    dict(name='refine_weights', functions=['multi_channel_refine_weights'], entry='h_multi_channel_refine_weights',
+         enforce='multi_channel_refine_weights', replace=['vp_pow'], real='double', defines=['VP_NMAX=4096'],
+         props=[]),
+]
+
+# ---- B2 jobs ---------------------------------------------------------------------------------------
 B2JOBS = [
     dict(name='c16_tiling', mode='int', functions=['discard_before', 'discard_after'],
          fragments=[f for f in sorted(FRAGMENTS)], property_file='specs/C16.smt2', props=['C16', 'C04'],
          assumptions=['world size and rank are non-negative int values with rank < world (MPI_Comm_rank/MPI_Comm_size contract)']),
 ]
+
 NATIVEJOBS = []
-REPLAYS = {'c16_tiling': dict(cpp='c16', link_fragments=sorted(FRAGMENTS))}
-PROPS = ['C%02d' % i for i in range(1, 21)]
+
+REPLAYS = {'c16_tiling': dict(cpp='c16', link_fragments=sorted(FRAGMENTS)),
+           'invoke_nodist': 'invoke', 'invoke_dist': 'invoke'}
